@@ -82,6 +82,13 @@ var prefixes = []piece{
 	{name: "function defined and called", text: "<% let g = fn(y) { %>\n<%= y %>\n<% } %>\n<%= g(1) %>\n", runsBlock: true},
 	{name: "function defined, not called", text: "<% let g = fn(y) { %>\n<%= y %>\n<% } %>\n"},
 	{name: "block helper", text: "<%= blk() { %>\nin\n<% } %>\n", runsBlock: true},
+	// an unknown identifier inside a NESTED statement whose failure the enclosing tag tolerates (if conditions, !,
+	// ==, ||): that earlier tag succeeded, a later failure is reported on its own line
+	{name: "tolerated failure in a function body, if condition", text: "<% let tf = fn() { %>\n<%= undefinedThing %>\n<% } %>\n<%= if (tf()) { %>\nyes\n<% } else { %>\nno\n<% } %>\n", runsBlock: true},
+	{name: "tolerated failure in a function body, bang", text: "<% let tg = fn() {\n  return missingName\n} %>\n<%= !tg() %>\n", runsBlock: true},
+	{name: "tolerated failure in a function body, == nil", text: "<% let th = fn() { %>\n<% let q = missingName %>\n<% } %>\n<%= th() == nil %>\n", runsBlock: true},
+	{name: "tolerated failure in a function body, ||", text: "<% let tk = fn() { %>\n\n<% if (true) { %>\n<% return missingName %>\n<% } %>\n<% } %>\n<%= tk() || \"alt\" %>\n", runsBlock: true},
+	{name: "tolerated failure in a loop in a function body", text: "<% let tl = fn() { %>\n<%= for (v) in xs { %>\n<%= missingName %>\n<% } %>\n<% } %>\n<%= if (!tl()) { %>t<% } %>\n", runsBlock: true},
 }
 
 // ctx: where the failing tag is placed. The template is prefix + kind.setup + pre + TAG + tail + gap + post + suffix.
@@ -99,6 +106,7 @@ var ctxs = []ctx{
 	{name: "for", pre: "<%= for (x) in xs { %>\n", post: "<% } %>", loop: true},
 	{name: "function", pre: "<% let f = fn() { %>\n", post: "<% } %>\n\n<%= f() %>"},
 	{name: "block helper", pre: "<%= blk() { %>\n", post: "<% } %>"},
+	{name: "for, after a tolerated failure in the same body", pre: "<% let tz = fn() { %>\n<%= missingName %>\n<% } %>\n<%= for (x) in xs { %>\n<%= if (tz()) { %>y<% } %>\n", post: "<% } %>", loop: true},
 	{name: "if in for, same line", pre: "<%= for (x) in one { %><%= if (x) { %>", post: "<% } %><% } %>", loop: true},
 }
 
